@@ -19,23 +19,33 @@ Theorem C08_dec_enc_etc : forall x f,
 Proof. exact dec_enc_etc. Qed.
 Print Assumptions C08_dec_enc_etc.
 
-(* DropletTrack.  partial: missing are (i) tracks in which a member has exactly one amplitude while
-   the first member has a different number of them (`no_bcast`; refuted below) and (ii) integer
-   times beyond 2^53 (`times_exact`; the time column is f8; refuted below) *)
-Theorem C08_dec_enc_track_partial : forall l f,
-  valid_track l = true -> no_bcast l = true -> times_exact l = true ->
+(* DropletTrack: same droplets bit for bit, times equal under == (they come back as the doubles of the
+   f8 time column).  Stated premise on the times: integer times within +-2^53, no NaN (`times_exact`);
+   it is needed, see C08_track_int_time_refuted *)
+Theorem C08_dec_enc_track : forall l f,
+  valid_track l = true -> times_exact l = true ->
   enc_track_file repo_fmt l = Ok f ->
   exists l', dec_track_file repo_fmt f = Ok l' /\ track_same l l'.
 Proof. exact dec_enc_track_file. Qed.
-Print Assumptions C08_dec_enc_track_partial.
+Print Assumptions C08_dec_enc_track.
 
-(* DropletTrackList, at most 10^6 tracks.  partial: same two restrictions on the member tracks *)
-Theorem C08_dec_enc_tracklist_partial : forall x f,
+(* DropletTrackList, at most 10^6 tracks; `valid_tracklist` = every member valid with exact times *)
+Theorem C08_dec_enc_tracklist : forall x f,
   valid_tracklist x = true -> Z.of_nat (List.length x) <= 10 ^ 6 ->
   enc_tracklist repo_fmt x = Ok f ->
   exists x', dec_tracklist repo_fmt f = Ok x' /\ tracklist_same x x'.
 Proof. exact dec_enc_tracklist. Qed.
-Print Assumptions C08_dec_enc_tracklist_partial.
+Print Assumptions C08_dec_enc_tracklist.
+
+(* DropletTrack.data rejects members whose layout differs from that of the first member: whatever is
+   written is uniform (this is what rules out numpy's silent broadcast of a single amplitude) *)
+Theorem C08_track_written_uniform : forall l f, enc_track_file repo_fmt l = Ok f ->
+  match l with
+  | [] => True
+  | td0 :: _ => forallb (fun td => layout_eqb (layout (snd td)) (layout (snd td0))) l = true
+  end.
+Proof. exact track_written_uniform. Qed.
+Print Assumptions C08_track_written_uniform.
 
 (* writing raises, or the file reads back as the object written *)
 Theorem C08_enc_total_or_err_emulsion : forall l, valid_emulsion l = true ->
@@ -50,19 +60,19 @@ Theorem C08_enc_total_or_err_etc : forall x, valid_etc x = true -> Z.of_nat (Lis
 Proof. exact enc_total_or_err_etc. Qed.
 Print Assumptions C08_enc_total_or_err_etc.
 
-Theorem C08_enc_total_or_err_track_partial : forall l,
-  valid_track l = true -> no_bcast l = true -> times_exact l = true ->
+Theorem C08_enc_total_or_err_track : forall l,
+  valid_track l = true -> times_exact l = true ->
   (exists e, enc_track_file repo_fmt l = Err e) \/
   (exists f l', enc_track_file repo_fmt l = Ok f /\ dec_track_file repo_fmt f = Ok l' /\ track_same l l').
 Proof. exact enc_total_or_err_track. Qed.
-Print Assumptions C08_enc_total_or_err_track_partial.
+Print Assumptions C08_enc_total_or_err_track.
 
-Theorem C08_enc_total_or_err_tracklist_partial : forall x,
+Theorem C08_enc_total_or_err_tracklist : forall x,
   valid_tracklist x = true -> Z.of_nat (List.length x) <= 10 ^ 6 ->
   (exists e, enc_tracklist repo_fmt x = Err e) \/
   (exists f x', enc_tracklist repo_fmt x = Ok f /\ dec_tracklist repo_fmt f = Ok x' /\ tracklist_same x x').
 Proof. exact enc_total_or_err_tracklist. Qed.
-Print Assumptions C08_enc_total_or_err_tracklist_partial.
+Print Assumptions C08_enc_total_or_err_tracklist.
 
 (* the keys of up to 10^6 members are in lexicographic order, so sorted() keeps the index order *)
 Theorem C08_pad6_sorted : forall p n, Z.of_nat n <= 10 ^ 6 ->
@@ -78,16 +88,9 @@ Theorem C08_pad6_unsorted_refuted :
 Proof. exact pad6_unsorted. Qed.
 Print Assumptions C08_pad6_unsorted_refuted.
 
-(* a valid track that is written without error and reads back with different amplitudes *)
-Theorem C08_dec_enc_track_refuted :
-  exists l, valid_track l = true /\ times_exact l = true /\
-  exists f l', enc_track_file repo_fmt l = Ok f /\ dec_track_file repo_fmt f = Ok l' /\ ~ track_same l l'.
-Proof. exact (ex_intro _ bcast_track track_broadcast_witness). Qed.
-Print Assumptions C08_dec_enc_track_refuted.
-
 (* an integer time beyond 2^53 does not survive the f8 time column *)
 Theorem C08_track_int_time_refuted :
-  exists l, valid_track l = true /\ no_bcast l = true /\
+  exists l, valid_track l = true /\
   exists f l', enc_track_file repo_fmt l = Ok f /\ dec_track_file repo_fmt f = Ok l' /\ ~ track_same l l'.
 Proof. exact (ex_intro _ big_time_track track_int_time_witness). Qed.
 Print Assumptions C08_track_int_time_refuted.
